@@ -381,6 +381,8 @@ class Recorder:
             inst["term"] = str(ts)[:800]
         self.solver_time += time.time() - t0
         self.instances.append(inst)
+        if os.environ.get("PYVC_DUMP") and time.time() - t0 > 2:
+            print(f"[pyvc] slow: {oid} -> {status} by {backend} in {time.time() - t0:.1f}s on path {c.decisions}", flush=True)
 
 
 # ----------------------------------------------------------------------------------------------
